@@ -28,6 +28,9 @@ FIXED = [
     ("C05", "c52c9af", "`order by modified` panicked when the current date is 29 February (fallback date built from today's date with year 1970)", ["date-key-on-feb-29"]),
     ("C06", "b34b410", "with `archives`, ORDER BY and LIMIT N the archive member loop stopped after N rows had been seen: `order by size desc limit 1` returned the archive instead of its larger member", ["archive-top1-by-size"]),
     ("C07", "795173b", "AVG used integer division (sizes 1,2,4,6 -> 3 instead of 3.25) and VAR_*/STDDEV_* were computed around that truncated mean", ["fractional-mean"]),
+    ("C09", "5612c22", "`into html` copied values into <td> without escaping < > & (names `<x>`, `a&b` broke the markup or changed value)", ["html-escaping"]),
+    ("C09", "a0cf93e", "grouped results were written without row separators: `into json` printed `[{...}{...}]`", ["grouped-separators"]),
+    ("C09", "d6b99f4", "a CSV row larger than the csv writer's 8 KiB buffer containing multi-byte characters was truncated or dropped (WritableBuffer rejected chunks ending inside a UTF-8 sequence)", ["csv-long-multibyte-row"]),
 ]
 
 OPEN = [
